@@ -19,6 +19,18 @@ package clone
 // designs in which one junction is the reverse complement of the next (AACG,
 // CGTT): a fragment between them fits in both orientations and each orientation
 // is a ring of its own (c09MakeDesignPairs, class fragment-fits-both-ways).
+//
+// LONG constructs (c09LongDesign, classes ending in -longer-than-4096). A
+// plasmid has a few thousand base pairs; the designs above have interiors of
+// 0..31 bases and so constructs of at most a few hundred. Both exact-rings
+// clauses therefore also run a few assemblies whose constructs are LONGER
+// THAN 4096 bp (4.7 kb from a 3 kb backbone and two inserts, with a run of 24 T
+// or 24 A in one insert so that the least rotation lies once on the strand
+// opposite to the one the fragments are supplied on and once on the supplied
+// one; 9 kb with two alternatives; a single interior of 5 kb next to a short
+// one; a single 4.7 kb fragment that closes on itself), as fragments and, for
+// GoldenGate, cut out of carriers of that size. Nothing else changes: one
+// construct per ring, none missing, none spurious, none repeated.
 
 import (
 	"context"
@@ -208,7 +220,9 @@ type c09Design struct {
 	alts   []int
 	decoys int
 	note   string
-	pairs  int // junction pairs that are reverse complements of each other (c09MakeDesignPairs)
+	pairs  int  // junction pairs that are reverse complements of each other (c09MakeDesignPairs)
+	long   bool // every construct is longer than 4096 bp (c09LongDesign)
+	fixed  bool // long design supplied as designed: design order, no fragment turned around
 }
 
 func (d c09Design) key() string {
@@ -472,6 +486,122 @@ func c09Clip(s string) string {
 		return s[:60] + "..." + s[len(s)-12:] + fmt.Sprintf("(%d)", len(s))
 	}
 	return s
+}
+
+// ---- long constructs ----
+
+const c09LongSuffix = "-longer-than-4096"
+
+// c09LongSpec describes one assembly with constructs longer than 4096 bp:
+// lens[j] are the interior lengths of the alternatives of slot j; run, when not
+// empty, is put into the middle of the first alternative of slot len(lens)/2;
+// fixed: fragments supplied in design order and orientation (else each in a
+// random orientation, pool shuffled).
+type c09LongSpec struct {
+	lens  [][]int
+	run   string
+	fixed bool
+	what  string
+}
+
+var c09LongQuickLig = []c09LongSpec{
+	{[][]int{{3000}, {1000}, {677}}, strings.Repeat("T", 24), true, "3 kb backbone + 1 kb insert holding a run of 24 T + 0.7 kb insert, one ring of 4.7 kb, supplied as designed"},
+	{[][]int{{3000}, {1000}, {677}}, strings.Repeat("A", 24), true, "3 kb backbone + 1 kb insert holding a run of 24 A + 0.7 kb insert, one ring of 4.7 kb, supplied as designed"},
+	{[][]int{{4000}, {3000, 2500}, {2000}}, "", false, "4 kb + (3 kb or 2.5 kb) + 2 kb, two rings of 9 kb and 8.5 kb, random orientation and order"},
+	{[][]int{{5000}, {30}}, "", false, "one interior of 5 kb and one of 30 bases, one ring of 5 kb, random orientation and order"},
+	{[][]int{{4700}}, "", false, "a single 4.7 kb fragment whose two overhangs are equal, closing on itself, in a random orientation"},
+}
+
+var c09LongQuickGG = []c09LongSpec{c09LongQuickLig[0], c09LongQuickLig[1], c09LongQuickLig[2]}
+
+// c09LongSpecs returns the fixed specs and, in the thorough tier, extra more
+// drawn at random: 1..4 junctions, 1..2 alternatives per slot, interiors of
+// 200..5000 bases, slot 0 lengthened where needed so that every ring has more
+// than 4096 bp (rings of 4.1 kb .. 20 kb), random orientation and order.
+func c09LongSpecs(rng *rand.Rand, fixedSpecs []c09LongSpec, extra int) []c09LongSpec {
+	out := append([]c09LongSpec{}, fixedSpecs...)
+	for i := 0; i < extra; i++ {
+		k := 1 + rng.Intn(4)
+		lens := make([][]int, k)
+		least := 0
+		for j := range lens {
+			m := 0
+			for a, n := 0, 1+rng.Intn(2); a < n; a++ {
+				l := 200 + rng.Intn(4801)
+				lens[j] = append(lens[j], l)
+				if a == 0 || l < m {
+					m = l
+				}
+			}
+			least += m + 4
+		}
+		if least <= 4096 {
+			add := 4097 - least + rng.Intn(500)
+			for a := range lens[0] {
+				lens[0][a] += add
+			}
+		}
+		out = append(out, c09LongSpec{lens, "", false, fmt.Sprintf("drawn at random: interiors %v, random orientation and order", lens)})
+	}
+	return out
+}
+
+// c09LongDesign builds the assembly of a spec.
+func c09LongDesign(rng *rand.Rand, sp c09LongSpec, avoid []string) c09Design {
+	k := len(sp.lens)
+	junction := c09Overhangs(rng, k)
+	d := c09Design{note: "construct-longer-than-4096: " + sp.what, long: true, fixed: sp.fixed}
+	for j := 0; j < k; j++ {
+		d.alts = append(d.alts, len(sp.lens[j]))
+		for i, n := range sp.lens[j] {
+			seq := c09RandSeq(rng, n, avoid...)
+			if sp.run != "" && j == k/2 && i == 0 {
+				seq = seq[:n/2] + sp.run + seq[n/2:]
+			}
+			d.pool = append(d.pool, c09Frag{seq, junction[j], junction[(j+1)%k]})
+		}
+	}
+	if !sp.fixed {
+		for i := range d.pool {
+			if rng.Intn(2) == 0 {
+				d.pool[i] = c09Flip(d.pool[i])
+			}
+		}
+		rng.Shuffle(len(d.pool), func(i, j int) { d.pool[i], d.pool[j] = d.pool[j], d.pool[i] })
+	}
+	return d
+}
+
+// c09LongClass: a failure on an assembly with constructs longer than 4096 bp
+// is a shape of its own.
+func c09LongClass(class string, d c09Design) string {
+	if d.long {
+		return class + c09LongSuffix
+	}
+	return class
+}
+
+// c09PoolTextFor is c09PoolText with the interiors of a long design clipped
+// (the text of a failure holds 600 characters).
+func c09PoolTextFor(d c09Design) string {
+	if !d.long {
+		return c09PoolText(d.pool)
+	}
+	var xs []string
+	for _, f := range d.pool {
+		xs = append(xs, f.Fo+"."+c09Clip(f.Seq)+"."+f.Ro)
+	}
+	return d.note + " (VERIF_SEED " + fmt.Sprint(verifSeed()) + "); " + strings.Join(xs, " ")
+}
+
+// c09AllLong says whether every ring has more than 4096 bp.
+func c09AllLong(want map[string]bool) bool {
+	for w := range want {
+		if len(w) <= 4096 {
+			return false
+		}
+	}
+	return len(want) > 0
 }
 
 // ---- GoldenGate inputs: fragments wrapped in enzyme sites on carrier parts ----
@@ -754,6 +884,25 @@ func TestVerifC09(t *testing.T) {
 	if thorough {
 		nBothLig, nBothGG, nBothOrder, nBothTerm = 80, 30, 24, 12
 	}
+	// assemblies with constructs longer than 4096 bp: a stream of their own too
+	grng := rand.New(rand.NewSource(verifSeed() + 2909))
+	nLongExtraLig, nLongExtraGG := 0, 0
+	if thorough {
+		nLongExtraLig, nLongExtraGG = 15, 6
+	}
+	longLig := c09LongSpecs(grng, c09LongQuickLig, nLongExtraLig)
+	longGG := c09LongSpecs(grng, c09LongQuickGG, nLongExtraGG)
+	longDom := func(specs []c09LongSpec, extra int) string {
+		var xs []string
+		for _, sp := range specs[:len(specs)-extra] {
+			xs = append(xs, sp.what)
+		}
+		s := fmt.Sprintf("%d designed assemblies whose constructs are all LONGER THAN 4096 bp (checked on the enumerator's rings), interiors of random sequence: %s", len(specs), strings.Join(xs, "; "))
+		if extra > 0 {
+			s += fmt.Sprintf("; and %d drawn at random (1..4 junctions, 1..2 alternatives per slot, interiors of 200..5000 bases, slot 0 lengthened where needed, rings of 4.1..20 kb, random orientation and order)", extra)
+		}
+		return s + "; no decoys; same demands: exactly one construct per ring (classes ring-missing" + c09LongSuffix + ", construct-spurious" + c09LongSuffix + ", construct-duplicated" + c09LongSuffix + ")"
+	}
 	bothDom := "designs with a fragment that fits both ways: junction 1 is the reverse complement of junction 0 (e.g. AACG and CGTT), so that a fragment of slot 0 turned around has the same two overhangs and the pool has one ring with it in either orientation; 2 junctions (both slots of that kind) or 3 junctions (in the orientations in which no supplied fragment sees a cycle that avoids its own leading overhang; the others are pools (e) of the termination clause), 1..2 alternatives per slot, 0..1 decoys, random orientation and order, at least two distinct rings by the enumerator (class " + c09BothWaysClass + " when one is missing)"
 	hung := false
 	// guarded in-process call: these pools have no cycle that excludes a seed,
@@ -776,14 +925,22 @@ func TestVerifC09(t *testing.T) {
 	// ---- CircularLigate on fragments ----
 	var vLig *verifRun
 	{
-		v := newVerifRun("C09", c09ClauseLigate, fmt.Sprintf("sampled, %d designed assemblies given directly as fragments: 1..6 junctions with distinct non-palindromic 4-base overhangs (none the reverse complement of another), 1..3 alternative fragments per slot (interiors of 0..31 bases, sometimes the same molecule twice), 0..3 decoys (both ends dead / only the leading end live / only the trailing end live), every fragment supplied in a random orientation, pool shuffled; these have at most %d rings with 5..6 junctions and at most 81 with fewer; plus %d large combinatorial libraries of the same kind with more than 128 distinct rings each (alternatives per slot %v, 0..1 decoys, no deliberately repeated molecule; 128 < rings <= 729); pools in which some supplied fragment sees a cycle that avoids its own leading overhang are left to the termination clause (this removes every pool with a decoy whose live end trails as supplied); each pool run %d times at each of GOMAXPROCS 1, 2, 16; the set of canonical forms (own brute-force least rotation over both strands) of the returned constructs must equal that of the independent ring enumerator, without repeats, every construct marked circular (class ring-missing-in-large-library when a ring of a pool with more than 128 rings is missing); non-trivial = at least 2 fragments in some ring or more than one ring; in addition the pools (a)-(c), (e) and the controls of the termination clause, whenever their child process returned, are compared in the same way (classes then end in -in-cyclic-pool); plus %d %s", nLigate, map[bool]int{false: 64, true: 729}[thorough], len(largeLig), largeLig, reps, nBothLig, bothDom))
+		v := newVerifRun("C09", c09ClauseLigate, fmt.Sprintf("sampled, %d designed assemblies given directly as fragments: 1..6 junctions with distinct non-palindromic 4-base overhangs (none the reverse complement of another), 1..3 alternative fragments per slot (interiors of 0..31 bases, sometimes the same molecule twice), 0..3 decoys (both ends dead / only the leading end live / only the trailing end live), every fragment supplied in a random orientation, pool shuffled; these have at most %d rings with 5..6 junctions and at most 81 with fewer; plus %d large combinatorial libraries of the same kind with more than 128 distinct rings each (alternatives per slot %v, 0..1 decoys, no deliberately repeated molecule; 128 < rings <= 729); pools in which some supplied fragment sees a cycle that avoids its own leading overhang are left to the termination clause (this removes every pool with a decoy whose live end trails as supplied); each pool run %d times at each of GOMAXPROCS 1, 2, 16; the set of canonical forms (own brute-force least rotation over both strands) of the returned constructs must equal that of the independent ring enumerator, without repeats, every construct marked circular (class ring-missing-in-large-library when a ring of a pool with more than 128 rings is missing); non-trivial = at least 2 fragments in some ring or more than one ring; in addition the pools (a)-(c), (e) and the controls of the termination clause, whenever their child process returned, are compared in the same way (classes then end in -in-cyclic-pool); plus %d %s; plus, run in the same way, %s", nLigate, map[bool]int{false: 64, true: 729}[thorough], len(largeLig), largeLig, reps, nBothLig, bothDom, longDom(longLig, nLongExtraLig)))
 		v.Sampled()
 		vLig = v
-		for i := 0; i < nLigate+len(largeLig)+nBothLig && !hung; i++ {
+		for i := 0; i < nLigate+len(largeLig)+nBothLig+len(longLig) && !hung; i++ {
 			var d c09Design
 			var want map[string]bool
 			var k int
-			if i >= nLigate+len(largeLig) {
+			if i >= nLigate+len(largeLig)+nBothLig {
+				sp := longLig[i-nLigate-len(largeLig)-nBothLig]
+				k = len(sp.lens)
+				d = c09LongDesign(grng, sp, nil)
+				want = c09Rings(d.pool)
+				if c09SeedFreeCycle(d.pool) || !c09AllLong(want) {
+					t.Fatalf("harness: long design %q has a cycle that avoids a seed, or a ring of 4096 bp or fewer", sp.what)
+				}
+			} else if i >= nLigate+len(largeLig) {
 				kp := c09BothWaysInProcess[(i-nLigate-len(largeLig))%len(c09BothWaysInProcess)]
 				var ok bool
 				k = kp[0]
@@ -819,7 +976,7 @@ func TestVerifC09(t *testing.T) {
 						defer func() { perr = recover() }()
 						parts = CircularLigate(frs)
 					})
-					input := fmt.Sprintf("GOMAXPROCS=%d fragments(leading.interior.trailing)= %s", p, c09PoolText(d.pool))
+					input := fmt.Sprintf("GOMAXPROCS=%d fragments(leading.interior.trailing)= %s", p, c09PoolTextFor(d))
 					if !ok {
 						vTerm.Fail("no-cycle-excluding-seed", input, "CircularLigate had not returned after 60 s although no cycle avoids a seed; in-process runs abandoned")
 						break
@@ -828,7 +985,9 @@ func TestVerifC09(t *testing.T) {
 						v.Fail("panic", input, fmt.Sprint("panic: ", perr))
 						continue
 					}
-					c09Compare(parts, want, func(class, detail string) { v.Fail(c09BothClass(c09LargeClass(class, want), d), input, detail) })
+					c09Compare(parts, want, func(class, detail string) {
+						v.Fail(c09LongClass(c09BothClass(c09LargeClass(class, want), d), d), input, detail)
+					})
 				}
 			}
 		}
@@ -836,16 +995,23 @@ func TestVerifC09(t *testing.T) {
 
 	// ---- GoldenGate on carrier parts ----
 	{
-		v := newVerifRun("C09", c09ClauseGG, fmt.Sprintf("sampled, %d designed assemblies (1..5 junctions, 1..3 alternatives, at most %d rings, 0..2 decoys, same exclusion as above) plus %d large combinatorial libraries with more than 128 distinct rings each (5..6 junctions, alternatives per slot %v, 0..1 decoys; class ring-missing-in-large-library) whose fragments are each wrapped in BsaI, BbsI or BtgZI sites and carried, one or two per part, on circular parts (stored from a random origin that does not fall inside a site, its skip or its overhang, so that C10's origin defect is not in play) and linear parts, cassettes in either orientation, a quarter of the parts in lower case, plus parts without any site or with a single site; parts shuffled; each run %d times at GOMAXPROCS 1, 2, 16; result compared as above with the rings of the designed fragments; non-trivial as above; plus, wrapped and carried in the same way, %d %s", nGG, map[bool]int{false: 27, true: 81}[thorough], len(largeGG), largeGG, (reps+1)/2, nBothGG, bothDom))
+		v := newVerifRun("C09", c09ClauseGG, fmt.Sprintf("sampled, %d designed assemblies (1..5 junctions, 1..3 alternatives, at most %d rings, 0..2 decoys, same exclusion as above) plus %d large combinatorial libraries with more than 128 distinct rings each (5..6 junctions, alternatives per slot %v, 0..1 decoys; class ring-missing-in-large-library) whose fragments are each wrapped in BsaI, BbsI or BtgZI sites and carried, one or two per part, on circular parts (stored from a random origin that does not fall inside a site, its skip or its overhang, so that C10's origin defect is not in play) and linear parts, cassettes in either orientation, a quarter of the parts in lower case, plus parts without any site or with a single site; parts shuffled; each run %d times at GOMAXPROCS 1, 2, 16; result compared as above with the rings of the designed fragments; non-trivial as above; plus, wrapped and carried in the same way, %d %s; plus, wrapped and carried in the same way (BsaI, BbsI, BtgZI in turn; the assemblies supplied as designed: one cassette per linear part, none turned around; the carriers are then longer than 4096 bp themselves), %s", nGG, map[bool]int{false: 27, true: 81}[thorough], len(largeGG), largeGG, (reps+1)/2, nBothGG, bothDom, longDom(longGG, nLongExtraGG)))
 		v.Sampled()
 		largeRetry := 0
-		for i := 0; i < nGG+len(largeGG)+nBothGG && !hung; i++ {
+		for i := 0; i < nGG+len(largeGG)+nBothGG+len(longGG) && !hung; i++ {
 			e := c09Enzymes[i%3]
 			rng := rng
 			var d c09Design
 			var k int
 			flipTries := 10
-			if i >= nGG+len(largeGG) {
+			if i >= nGG+len(largeGG)+nBothGG {
+				rng = grng
+				li := i - nGG - len(largeGG) - nBothGG
+				e = c09Enzymes[li%3]
+				k = len(longGG[li].lens)
+				d = c09LongDesign(grng, longGG[li], []string{e.site, c09RC(e.site)})
+				flipTries = 200
+			} else if i >= nGG+len(largeGG) {
 				rng = brng
 				kp := c09BothWaysInProcess[(i-nGG-len(largeGG))%len(c09BothWaysInProcess)]
 				var ok bool
@@ -878,12 +1044,18 @@ func TestVerifC09(t *testing.T) {
 			for try := 0; try < flipTries && !safe; try++ {
 				for j, f := range d.pool {
 					flips[j] = rng.Intn(2) == 0
+					if d.fixed {
+						flips[j] = false
+					}
 					asCut[j] = f
 					if flips[j] {
 						asCut[j] = c09Flip(f)
 					}
 				}
 				safe = !c09SeedFreeCycle(asCut)
+			}
+			if !safe && d.long {
+				t.Fatalf("harness: long design %q: no orientation of the cassettes without a cycle that avoids a seed", d.note)
 			}
 			if !safe {
 				if i >= nGG && i < nGG+len(largeGG) && largeRetry < 20 { // a large library is not given up: draw it again
@@ -893,14 +1065,21 @@ func TestVerifC09(t *testing.T) {
 				continue
 			}
 			want := c09Rings(d.pool)
+			if d.long && !c09AllLong(want) {
+				t.Fatalf("harness: long design %q has a ring of 4096 bp or fewer", d.note)
+			}
 			var parts []Part
 			okBuild := true
 			for j := 0; j < len(d.pool); {
 				take := 1
-				if j+1 < len(d.pool) && rng.Intn(4) == 0 {
+				if j+1 < len(d.pool) && rng.Intn(4) == 0 && !d.fixed {
 					take = 2
 				}
-				p, ok := c09Carrier(rng, e, d.pool[j:j+take], flips[j:j+take], rng.Intn(2) == 0)
+				circular := rng.Intn(2) == 0 && !d.fixed
+				p, ok := c09Carrier(rng, e, d.pool[j:j+take], flips[j:j+take], circular)
+				if !ok && d.long {
+					t.Fatalf("harness: long design %q: no carrier for its fragments", d.note)
+				}
 				if !ok {
 					okBuild = false
 					break
@@ -928,6 +1107,10 @@ func TestVerifC09(t *testing.T) {
 				if p.Circular {
 					shape = "circular:"
 				}
+				if d.long {
+					ptxt = append(ptxt, shape+c09Clip(p.Sequence))
+					continue
+				}
 				ptxt = append(ptxt, shape+p.Sequence)
 			}
 			for _, p := range c09Procs {
@@ -941,7 +1124,7 @@ func TestVerifC09(t *testing.T) {
 						defer func() { perr = recover() }()
 						got, err = GoldenGate(parts, e.name)
 					})
-					input := fmt.Sprintf("GOMAXPROCS=%d enzyme=%s designed fragments= %s ; parts= %s", p, e.name, c09PoolText(d.pool), strings.Join(ptxt, " "))
+					input := fmt.Sprintf("GOMAXPROCS=%d enzyme=%s designed fragments= %s ; parts= %s", p, e.name, c09PoolTextFor(d), strings.Join(ptxt, " "))
 					if !ok {
 						vTerm.Fail("no-cycle-excluding-seed", input, "GoldenGate had not returned after 60 s although no cycle avoids a seed; in-process runs abandoned")
 						break
@@ -954,7 +1137,9 @@ func TestVerifC09(t *testing.T) {
 						v.Fail("error", input, "error: "+err.Error())
 						continue
 					}
-					c09Compare(got, want, func(class, detail string) { v.Fail(c09BothClass(c09LargeClass(class, want), d), input, detail) })
+					c09Compare(got, want, func(class, detail string) {
+						v.Fail(c09LongClass(c09BothClass(c09LargeClass(class, want), d), d), input, detail)
+					})
 				}
 			}
 		}
